@@ -11,6 +11,7 @@ import (
 	"sort"
 	"strings"
 	"sync"
+	"sync/atomic"
 	"time"
 
 	"golang.org/x/tools/go/ssa"
@@ -49,6 +50,7 @@ type Engine struct {
 	encoded   map[string]int // functions interpreted -> instruction count
 	intrinsic map[string]bool
 	known     []KnownFinding
+	fnInfos   sync.Map
 }
 
 type InputRec struct {
@@ -126,6 +128,7 @@ type Worker struct {
 	tb     *TB
 	solver *Solver
 	cross  []*Solver
+	consts map[*ssa.Const]Value
 }
 
 type Path struct {
@@ -150,6 +153,7 @@ type Path struct {
 	fnCount   map[*ssa.Function]int
 	clock     *Term
 	extra     map[string]any
+	fnSteps   map[*ssa.Function]int
 }
 
 func (p *Path) unsupported(msg string) pathAbort {
@@ -215,17 +219,15 @@ func (p *Path) assertPC(c *Term) {
 }
 
 func (e *Engine) countQuery(kind string) {
-	e.mu.Lock()
-	e.res.Queries++
+	atomic.AddInt64(&e.res.Queries, 1)
 	switch kind {
 	case "feas":
-		e.res.QueriesFeas++
+		atomic.AddInt64(&e.res.QueriesFeas, 1)
 	case "oblig":
-		e.res.QueriesOblig++
+		atomic.AddInt64(&e.res.QueriesOblig, 1)
 	case "cross":
-		e.res.QueriesCross++
+		atomic.AddInt64(&e.res.QueriesCross, 1)
 	}
-	e.mu.Unlock()
 }
 
 func (p *Path) feasible(c *Term) SatResult {
@@ -406,7 +408,7 @@ func (e *Engine) Run() {
 		wg.Add(1)
 		go func(id int) {
 			defer wg.Done()
-			w := &Worker{id: id, e: e, tb: NewTB()}
+			w := &Worker{id: id, e: e, tb: NewTB(), consts: map[*ssa.Const]Value{}}
 			logp := ""
 			if e.cfg.LogDir != "" {
 				logp = fmt.Sprintf("%s/solver-%d.smt2", e.cfg.LogDir, id)
@@ -440,6 +442,7 @@ func (e *Engine) Run() {
 				npaths++
 				if npaths%200 == 0 && len(w.tb.tab) > 2_000_000 {
 					w.tb = NewTB()
+					w.consts = map[*ssa.Const]Value{}
 				}
 			}
 		}(i)
@@ -464,6 +467,25 @@ func (w *Worker) runPath(prefix []int) {
 		globals: map[*ssa.Global]Ptr{}, inited: map[*ssa.Package]bool{},
 		errSent: map[string]*ErrObj{}, ghost: map[string][]Value{}, fnCount: map[*ssa.Function]int{},
 		extra: map[string]any{}}
+	if os.Getenv("GOSYM_FNSTEPS") != "" && len(prefix) == 0 {
+		p.fnSteps = map[*ssa.Function]int{}
+		defer func() {
+			type kv struct {
+				f string
+				n int
+			}
+			var kvs []kv
+			for f, n := range p.fnSteps {
+				kvs = append(kvs, kv{f.String(), n})
+			}
+			sort.Slice(kvs, func(i, j int) bool { return kvs[i].n > kvs[j].n })
+			for i, x := range kvs {
+				if i < 25 {
+					fmt.Fprintf(os.Stderr, "FNSTEPS %8d %s\n", x.n, x.f)
+				}
+			}
+		}()
+	}
 	status := "complete"
 	func() {
 		defer func() {
